@@ -23,3 +23,23 @@ PROPERTIES["C19"] = dict(
         dict(pkg="util/tokenhelper", files=["util_tokenhelper/zz_verif_c19.go"], entry="Harness_C19_K1_string", args=dict(sample_every=7)),
     ],
 )
+
+PROPERTIES["C12"] = dict(
+    explanation="symx executes (*Config).IsPkgInScope, config.run (flag parsing into the lists), (*Config).IsFileInScope and asthelper.DocContains from SSA; "
+                "prefix lists, package path, comment texts and positions are symbolic; each loop iteration's HasPrefix/Contains is a solver-decided fork and the "
+                "result on every path is compared with the flat specification formula by one query.",
+    bounds=dict(quick="<=2 include and <=2 exclude prefixes, strings <=6 chars; 7x7 concrete flag texts; <=2 comment groups (symbolic text <=6 chars, optionally followed by / replaced by the templ marker), <=2 exclude docstrings (<=6 chars)",
+                thorough="<=3 include and <=3 exclude prefixes, strings <=8 chars; <=3 comment groups, <=2 exclude docstrings"),
+    outside=["that out-of-scope files contribute no sites inside the whole-package AST walks of each sub-analyzer",
+             "NoLintAnalyzer exports its fact regardless of scope (not among the facts the statement lists)",
+             "multi-line / block comments and //go: directives in (*ast.CommentGroup).Text (std lib)"],
+    assumptions=COMMON_ASSUMPTIONS + ["file.Comments is sorted by position (go/parser guarantees it)",
+                                      "(*ast.CommentGroup).Text of one //-line comment without leading/trailing blank or ':' is the text plus a newline (validated natively on sampled paths)"],
+    runs=[
+        dict(pkg="config", files=["config/zz_verif_c12.go"], entry="Harness_C12_K1",
+             quick=dict(params=dict(NI=2, NE=2, STRLEN=6)), thorough=dict(params=dict(NI=3, NE=3, STRLEN=8)), args=dict(sample_every=11)),
+        dict(pkg="config", files=["config/zz_verif_c12.go"], entry="Harness_C12_K1b", args=dict(sample_every=9)),
+        dict(pkg="config", files=["config/zz_verif_c12.go"], entry="Harness_C12_K2",
+             quick=dict(params=dict(NG=2, NX=2)), thorough=dict(params=dict(NG=3, NX=2)), args=dict(sample_every=5)),
+    ],
+)
